@@ -12,7 +12,7 @@
    [sqrtf] is np.sqrt: any function with the defining property of the square root. *)
 From Coq Require Import Reals List Bool.
 From Verif Require Import Base.Num Base.Vec Base.VecR C08.Model C08.VecLemmas C08.Rules C08.Proofs
-  C08.ProxRules C08.Moreau C08.GradEq C08.Biconj C08.KL.
+  C08.ProxRules C08.Moreau C08.GradEq C08.Biconj C08.KL C08.ConjTables.
 Import ListNotations.
 Local Open Scope R_scope.
 
@@ -125,3 +125,19 @@ Theorem kl_equality_at_gradient : forall g x : R, 0 < g -> 0 < x ->
   kl1 g x + klc1 g (1 - g / x) = x * (1 - g / x) /\ kce1 g x + kcec1 g (ln (x / g)) = x * ln (x / g).
 Proof. exact kl_equality_at_gradient_proof. Qed.
 Print Assumptions kl_fenchel_young.
+
+(* TIE  The conjugation rules are REGENERATED from the source on every run (translate/conjugates.py ->
+   Gen/Conjugates.v: the body of every `convex_conj` property of functional.py and
+   default_functionals.py and the case table of conj_exponent).  [interp w e] (C08/ConjTables.v) is what
+   the generated body of e's class denotes given the conjugates of e's operands; the hand-written
+   [cconj] used by all theorems above satisfies every generated equation, at both carriers.  A changed
+   exponent, 1/4, gamma/2, sign, reciprocal, class name, branch condition or evaluation order in the
+   source therefore breaks this proof.  ([constructible] only excludes QuadraticForm() without operator
+   and vector, which the constructor rejects.) *)
+Theorem cconj_is_generated_R : forall (w : list R) (e : fxR),
+  constructible e -> cconj w e = interp w e.
+Proof. exact cconj_generated_R. Qed.
+Theorem cconj_is_generated_Q : forall (w : list QArith_base.Q) (e : @fexpr QArith_base.Q),
+  constructible e -> cconj w e = interp w e.
+Proof. exact cconj_generated_Q. Qed.
+Print Assumptions cconj_is_generated_Q.
